@@ -434,3 +434,61 @@ def finish_replay(ctx):
         return 1
     print(f"[{prop}] replayed case passes on the current tree")
     return 0
+
+
+# ----------------------------------------------------------------------------- drift sentinel
+def _norm_ast(node):
+    """AST dump without docstrings and logging calls (comments are not in the AST anyway)"""
+    import ast
+
+    class Strip(ast.NodeTransformer):
+        def visit_Expr(self, n):
+            v = n.value
+            if isinstance(v, ast.Constant) and isinstance(v.value, str):
+                return None
+            if isinstance(v, ast.Call) and isinstance(v.func, ast.Attribute) and isinstance(v.func.value, ast.Name) \
+                    and v.func.value.id in ("logger", "logging"):
+                return None
+            return self.generic_visit(n)
+    return ast.dump(Strip().visit(node), annotate_fields=False, include_attributes=False)
+
+
+def fingerprints(specs):
+    """specs: ['evo/core/sync.py:matching_time_indices', 'evo/core/trajectory.py:PosePath3D.transform', …]
+    → {spec: sha1 of the normalised AST of that function in REPO's current working tree}"""
+    import ast
+    out, cache = {}, {}
+    for spec in specs:
+        path, qual = spec.split(":")
+        if path not in cache:
+            try:
+                cache[path] = ast.parse((REPO / path).read_text())
+            except (OSError, SyntaxError) as e:
+                cache[path] = e
+        tree = cache[path]
+        if isinstance(tree, Exception):
+            out[spec] = f"unreadable: {tree}"
+            continue
+        node = tree
+        for part in qual.split("."):
+            node = next((n for n in ast.iter_child_nodes(node)
+                         if isinstance(n, (ast.FunctionDef, ast.ClassDef, ast.AsyncFunctionDef)) and n.name == part), None)
+            if node is None:
+                break
+        out[spec] = hashlib.sha1(_norm_ast(node).encode()).hexdigest()[:16] if node is not None else "missing"
+    return out
+
+
+def drift(ctx, specs):
+    """Compare with harness/fingerprints.json (committed). A changed modelled function is not a violation:
+    it is recorded in the evidence and switches the correspondence run to the thorough budget."""
+    f = VERIF / "harness" / "fingerprints.json"
+    known = json.loads(f.read_text()) if f.exists() else {}
+    now = fingerprints(specs)
+    changed = sorted(s for s in specs if known.get(s) != now[s])
+    ctx.notes["modelled_functions"] = len(specs)
+    ctx.notes["model_source_changed"] = changed
+    if changed and any(s in known for s in changed):
+        ctx.thorough = True
+        ctx.notes["budget"] = "thorough (a modelled function changed)"
+    return now
